@@ -395,18 +395,29 @@ func runC04(c *Ctx) {
 		// delete-marked members: a versioned bucket where some keys' latest version is a marker
 		l, o = r.SetVer(bucket, "E")
 		r.judgeProj(l, o, "c04:setver", ident, nil)
-		for _, k := range []string{"a", "a/a", "a/b", "b"} {
+		// delete-marked keys before, between and after live keys of one common prefix, and alone
+		// under a prefix
+		for _, k := range []string{"a", "a/a", "a/b", "a/c", "a/d", "a/e", "b", "b/x", "c/x", "c/y", "d/x"} {
 			l, o = r.Put(bucket, k, nil, []byte(k))
 			r.judgeProj(l, o, "c04:put", dropVid, nil)
 		}
-		for _, k := range []string{"a/a", "b"} {
+		for _, k := range []string{"a/a", "a/c", "a/e", "b", "c/x", "d/x"} {
 			l, o = r.Del(bucket, k)
 			r.judgeProj(l, o, "c04:del", ident, nil)
 		}
+		liveSet := []string{"a", "a/b", "a/d", "b/x", "c/y"}
 		for _, cb := range combos {
-			for mk := 1; mk <= 4; mk++ {
+			for mk := 1; mk <= 6; mk++ {
 				for _, v2 := range []bool{false, true} {
-					c04Walk(c, r, bucket, []string{"a", "a/b"}, cb.pfx, cb.d, mk, "", v2)
+					c04Walk(c, r, bucket, liveSet, cb.pfx, cb.d, mk, "", v2)
+				}
+			}
+		}
+		for _, cb := range []struct{ pfx, d string }{{"", "/"}, {"a/", "/"}, {"a/", ""}, {"c", "/"}} {
+			for mk := 1; mk <= 3; mk++ {
+				for _, start := range []string{"a", "a/a", "a/b", "a/c", "b", "c/x"} {
+					c04Walk(c, r, bucket, liveSet, cb.pfx, cb.d, mk, start, false)
+					c04Walk(c, r, bucket, liveSet, cb.pfx, cb.d, mk, start, true)
 				}
 			}
 		}
